@@ -1,6 +1,6 @@
 #!/bin/bash
 # usage: lib/confirm_seed.sh <ID> <X>   (reads /tmp/seed/<ID>/out/<X>/, confirms in a scratch worktree of the pinned commit, writes /verif/seeded/<ID>-<X>/)
-ID=$1; X=$2; SRC=/tmp/seed/$ID/out/$X; BASE=a83e866
+ID=$1; X=$2; SRC=/tmp/seed/$ID/out/$X; BASE=$(cat /tmp/seed/$ID/BASE)
 export GOFLAGS=-mod=mod GOPROXY=off
 WT=/tmp/confirm-$ID-$X
 git -C /repo worktree remove --force $WT 2>/dev/null; rm -rf $WT
